@@ -26,6 +26,8 @@ func main() {
 		os.Exit(check(os.Args[2:]))
 	case "effects":
 		dumpEffects(os.Args[2:])
+	case "auth":
+		dumpAuth(os.Args[2:])
 	case "reach":
 		dumpReach(os.Args[2:])
 	case "list":
